@@ -330,6 +330,12 @@ def render_class(cd: Dict[str, Any], prog: Dict[str, Any]) -> List[str]:
             if not any(f.get("from_initvar") for f in cd["fields"]) and not cd.get("post_init"):
                 body.append("        pass")
         body += ["    " + line for line in cd.get("body") or []]
+        for m in cd.get("methods") or []:  # serialized methods / properties
+            body.append("    @serialized" + (f"({m['alias']!r})" if m.get("alias") else ""))
+            if m.get("prop"):
+                body.append("    @property")
+            body.append(f"    def {m['n']}(self) -> {texpr(m['ret'], prog)}:")
+            body.append(f"        return self.{m['field']}" if m["kind"] == "field" else f"        return {vexpr(m['value'], prog)}")
         out += body or ["    pass"]
     elif flavor == "namedtuple":
         out.append(f"class {name}(NamedTuple):")
